@@ -34,8 +34,11 @@ Fixpoint chunks (stride : nat) (fuel : nat) (d : bytes) : option (list bytes) :=
 Record list_params := mkLP { lp_start : nat; lp_len_a : nat; lp_len_b : nat; lp_bias : nat; lp_stride : nat }.
 
 (* body = data[start : ba_to_int(data[a:b]) + bias]; the descriptors are its consecutive stride-byte pieces *)
+(* (python clips a slice end beyond the buffer; the minimum is taken before leaving N so that a corrupted length
+   field of 2^32 never becomes a unary number) *)
 Definition list_body (p : list_params) (data : bytes) : bytes :=
-  slice data (lp_start p) (N.to_nat (ba_to_int (slice data (lp_len_a p) (lp_len_b p))) + lp_bias p).
+  slice data (lp_start p)
+        (N.to_nat (N.min (ba_to_int (slice data (lp_len_a p) (lp_len_b p)) + N.of_nat (lp_bias p)) (N.of_nat (length data)))).
 
 Definition parse_list (p : list_params) (data : bytes) : option (list bytes) :=
   chunks (lp_stride p) (length data) (list_body p data).
